@@ -80,6 +80,7 @@ def format_rules(an: Analysis, rep):
         rep.run(r103, an, rep, collapse, expand, fmt, is_lt)
     rep.run(r104, an, rep, b2i, i2b)
     rep.run(r102_siblings, an, rep, expand)
+    rep.run(r102_order, an, rep, expand)
 
 
 def _merge_predicates(collapse: FunctionInfo):
@@ -286,6 +287,45 @@ def r102_siblings(an, rep, expand):
     return n
 
 
+def r102_order(an, rep, expand):
+    """Which quantity is split first, per format: lnotab - address then line (assemble_lnotab); linetable - line then address."""
+    flagp = expand.params[1]
+    kind = {}
+    for name, nf in expand.nested.items():
+        wl = [n for n in ast.walk(nf.node) if isinstance(n, ast.While)]
+        vars_ = set()
+        for w_ in wl:
+            for c in ast.walk(w_.test):
+                if isinstance(c, ast.Compare) and isinstance(c.left, ast.Name):
+                    vars_.add(c.left.id)
+        if vars_:
+            kind[name] = "line" if any("line" in v for v in vars_) else "address"
+    if set(kind.values()) != {"line", "address"}:
+        raise AnalysisError(f"{expand.qual}: the two split helpers (line / address) not recognised")
+
+    def order(stmts, is_lt):
+        out = []
+        for st in stmts:
+            if isinstance(st, ast.If) and any(isinstance(x, ast.Name) and x.id == flagp for x in ast.walk(st.test)):
+                try:
+                    tv = bool(feval(st.test, {flagp: is_lt}))
+                except FevalError:
+                    continue
+                out += order(st.body if tv else st.orelse, is_lt)
+            elif isinstance(st, ast.Expr) and isinstance(st.value, ast.Call) and isinstance(st.value.func, ast.Name) and st.value.func.id in kind:
+                out.append(kind[st.value.func.id])
+            elif isinstance(st, ast.For):
+                out += order(st.body, is_lt)
+        return out
+    for fmt, is_lt in FORMATS.items():
+        got = order(expand.node.body, is_lt)
+        want = ["line", "address"] if is_lt else ["address", "line"]
+        rep.add("R10.2", f"{expand.qual}::split order [{fmt}]", got == want, loc(expand.module, expand.node),
+                f"{fmt}: the {want[0]} delta is split first, then the {want[1]} delta" if got == want else
+                f"[{fmt}] expand_items splits {got}, CPython's assembler for this format splits {want}: an entry that needs both splits at once is emitted in a different order "
+                f"than CPython's, so its table does not round-trip byte for byte", config=fmt)
+
+
 def r103(an, rep, collapse, expand, fmt, is_lt):
     # collapse: the constructor call building the collapsed item from an expanded one
     flagp = collapse.params[1]
@@ -348,6 +388,10 @@ def r104(an, rep, b2i, i2b):
     except Exception as ex:
         raise AnalysisError(f"{b2i.qual}: index range not evaluable: {ex}")
     rep.add("R10.4", f"{b2i.qual}::stride 2", idx == [0, 2, 4], loc(b2i.module, comp), f"indices {idx}" if idx == [0, 2, 4] else f"entries are read at indices {idx}, not 0, 2, 4")
+    filt = [c for g_ in comp.generators for c in g_.ifs]
+    rep.add("R10.4", f"{b2i.qual}::every pair becomes an entry", not filt, loc(b2i.module, comp),
+            f"pairs are filtered by `{norm_src(filt[0])}`: CPython's assembler does emit such pairs (e.g. (0, 0) after a line jump that is an exact multiple of the limit), "
+            f"dropping them loses entries so the table cannot be re-encoded byte for byte" if filt else "no pair is filtered out")
     iv = g.target.id
     kws = {k.arg: k.value for k in comp.elt.keywords} if isinstance(comp.elt, ast.Call) else {}
     bc, ln = kws.get("bytecode_offset"), kws.get("line_offset")
